@@ -263,9 +263,31 @@ class R:
             # make a bucket empty in each possible way, then touch its neighbours
             b = self.bucket(homes)
             lo, hi = b << 32, min(MAXV, (b + 1) << 32)
-            way = r.choice(["remr", "crem", "flipsame", "remr-span"])
+            way = r.choice(["remr", "crem", "flipsame", "remr-span", "partial-first", "partial-last", "partial-first"])
             g.count("emptybucket:" + way)
-            if way == "remr":
+            if way in ("partial-first", "partial-last"):
+                # the bucket holds values only above (below) some point m; a range over 2-3 buckets that STARTS (ends) strictly
+                # inside it at a point <= (>=) all of them empties it through the partial-removal path
+                g.emit("remr64 %s %d %d" % (x, lo, hi))
+                m = r.choice([1, 5, 65536, 70000, (1 << 31), (1 << 32) - 2])
+                vals = sorted(set(min((1 << 32) - 1, m + d) for d in (0, 1, 7, 65536, 100000)))
+                if way == "partial-first" and b < 0xFFFFFFFF:
+                    g.emit("addmany64 %s %s" % (x, " ".join(str(lo + v) for v in vals)))
+                    g.emit("add64 %s %d" % (x, hi + r.choice([0, 3, 70000])))            # something in the next bucket
+                    s = lo + r.choice([m, m, max(1, m - 1), 1])
+                    e = min(MAXV, hi + r.choice([1, 4, 65536, (1 << 32) + 5]))
+                    g.emit("remr64 %s %d %d" % (x, s, e))
+                elif b > 0:
+                    top = (1 << 32) - 1 - m
+                    vals2 = sorted(set(max(0, top - d) for d in (0, 1, 7, 65536, 100000)))
+                    g.emit("addmany64 %s %s" % (x, " ".join(str(lo + v) for v in vals2)))
+                    g.emit("add64 %s %d" % (x, lo - r.choice([1, 3, 70000])))            # something in the previous bucket
+                    s = max(0, lo - r.choice([1, 4, 65536, (1 << 32) + 5]))
+                    e = lo + r.choice([top + 1, top + 1, min((1 << 32) - 1, top + 2)])
+                    g.emit("remr64 %s %d %d" % (x, s, e))
+                else:
+                    g.emit("remr64 %s %d %d" % (x, lo, hi))
+            elif way == "remr":
                 g.emit("remr64 %s %d %d" % (x, lo, hi))
             elif way == "remr-span":
                 g.emit("remr64 %s %d %d" % (x, max(0, lo - r.choice([0, 1, 70000])), min(MAXV, hi + r.choice([0, 1, 70000]))))
